@@ -216,3 +216,12 @@ Lemma wtokens :
   decoded_seq (enc_toks toks_order2) = Some 2 /\
   delivered (p_evs (proc (enc_toks toks_order2) s_cont)) = true.
 Proof. split; [left; reflexivity|]. vm_compute. repeat split; reflexivity. Qed.
+
+Lemma w0x :
+  app_type (b "0X") = true /\ is_app sc0 (b "0X") = true /\
+  decoded_seq raw_0x = Some 2 /\ raw_seq raw_0x = Some 2 /\ s_next_recv s_cont = 2 /\
+  delivers_of (p_evs (proc raw_0x s_cont)) = [b "0X"] /\
+  c19_ok sc0 lens0 ops_0x (run0 ops_0x) = true /\
+  c19_ok sc0 lens0 ops_0x (run0c ops_0x) = true /\
+  c19_ok sc0 lens0 ops_0x (drop_delivers (run0 ops_0x)) = false.
+Proof. vm_compute. repeat split; reflexivity. Qed.
